@@ -68,7 +68,9 @@ def reused_instance(rng, cfg):
         return None
     import warnings
     import numpy as np
-    cfg0 = nnm.gen_cfg(rng, kind=cfg["kind"], finite=cfg["N"] is not None)
+    cfg0 = nnm.earlier_cfg(rng, cfg)
+    if cfg["kind"] == "kk" and cfg0["N"] is None:
+        cfg0["N"] = cfg["N"]
     try:
         with warnings.catch_warnings():
             warnings.simplefilter("ignore")
